@@ -152,7 +152,7 @@ func (r *renderer) simple(s *Stmt) string {
 		return s.Name + s.Op
 	case "yield":
 		if r.mode == "S" {
-			return r.co + "Yield(" + wrapElem(r.elem(), r.expr(s.E)) + ")"
+			return r.co + "Yield" + r.inst(s) + "(" + wrapElem(r.elem(), r.expr(s.E)) + ")"
 		}
 		return "yield(" + wrapElem(r.elem(), r.expr(s.E)) + ")"
 	case "yieldraw":
@@ -162,7 +162,7 @@ func (r *renderer) simple(s *Stmt) string {
 		return "yield(" + r.expandRaw(s.Raw) + ")"
 	case "yieldfrom":
 		if r.mode == "S" {
-			return r.co + "YieldFrom(" + r.iter(s.Iter) + ")"
+			return r.co + "YieldFrom" + r.inst(s) + "(" + r.iter(s.Iter) + ")"
 		}
 		return "ref.From(yield, " + r.iter(s.Iter) + ")"
 	case "callstmt":
@@ -758,6 +758,14 @@ type importStyle struct {
 
 var importStyles = []importStyle{
 	{"dot", ""}, {"co", ""}, {"renamed", ""}, {"dot", "seq"}, {"co", "sq"}, {"renamed", "seq"},
+}
+
+// inst: explicit instantiation of the API call (Yield[T](e), co.YieldFrom[T](it)) when the statement asks for it
+func (r *renderer) inst(s *Stmt) string {
+	if s.T == "inst" && r.elem() != "" {
+		return "[" + r.elem() + "]"
+	}
+	return ""
 }
 
 const coPath = "github.com/goghcrow/go-co"
